@@ -51,10 +51,11 @@ class C09(StdCheck):
     eval_key = "steps"
     max_shrunk = 2
     required_theorems = [
-        "macro_terminates", "depth_bounded", "dollar_escape", "verbatim_insertion", "lone_macro_verbatim",
+        "macro_terminates", "depth_bounded", "fuel_monotone", "dollar_escape", "verbatim_insertion", "lone_macro_verbatim",
         "argv_shape_independent_of_values", "each_value_one_element", "optional_missing_drops_only_its_argument",
-        "required_missing_fails", "shell_quote_roundtrip", "shell_quote_one_word", "shell_quote_needs_unquoted_counterexample",
-        "exit_mapping", "output_split", "model_result_meets_spec", "model_string_command_meets_spec_partial",
+        "required_missing_fails", "cached_path_equals_direct_partial", "cached_path_nested_missing_counterexample",
+        "model_block_meets_layout_spec", "shell_quote_roundtrip", "shell_quote_one_word", "shell_quote_needs_unquoted_counterexample",
+        "exit_mapping", "output_split", "model_result_meets_spec", "model_string_command_meets_spec",
     ]
     technique = ("Lean 4 proof (round-trip law for the shell quoting over a model of sh word splitting, structural theorems about the "
                  "macro scanner and the argument emitter) about a hand-written executable model; correspondence by differential execution "
@@ -120,7 +121,17 @@ class C09(StdCheck):
                     return line.rstrip("\n")
         return ""
 
+    def _driver_lines(self, harness_lines):
+        """SPECFAIL/MISMATCH lines of the driver on an already executed (harness output) case."""
+        f = self.work("classify.out")
+        with open(f, "w") as fh:
+            fh.write("\n".join(harness_lines) + "\n")
+        with open(f) as fh:
+            p = subprocess.run([self._driver], stdin=fh, stdout=subprocess.PIPE, stderr=subprocess.PIPE, text=True, errors="replace")
+        return [l for l in p.stdout.splitlines() if l.startswith(("SPECFAIL", "MISMATCH"))]
+
     def collect(self, res, lines, save, harness, driver):
+        self._driver = driver
         bad = [l for l in lines if l.startswith("BADLINE")]
         if bad:
             res.corr_failures.append(runner.Finding("corr", "protocol", bad[:5]))
@@ -130,19 +141,28 @@ class C09(StdCheck):
                 continue
             kv = core.parse_kv(l)
             cl = kv.get("clause", "?")
-            # classify the FAILING line itself before any shrinking: only a string command line with a macro inside an open
-            # double-quote/backtick context belongs to the recorded class; everything else keeps the bare clause name
-            tmpl = x_template(self._line(save, int(kv["line"])))
-            cls = "macro_in_shell_quotes" if (cl == "string_cmd_verbatim" and tmpl is not None and macro_in_shell_quotes(tmpl)) else ""
+            # classify the FAILING line itself before any shrinking.  Recorded classes: (a) a string command line with a macro inside
+            # an open double-quote/backtick context (decided here from the template), (b) a divergence between the cached and the
+            # direct path that the model attributes to a missing NESTED macro (decided by the driver: class=nested_missing only when
+            # the model reproduces both passes).  Everything else keeps the bare clause name and is never matched as known.
+            cls = ""
+            if cl == "string_cmd_verbatim":
+                tmpl = x_template(self._line(save, int(kv["line"])))
+                if tmpl is not None and macro_in_shell_quotes(tmpl):
+                    cls = "macro_in_shell_quotes"
+            elif cl == "cached_equals_direct" and kv.get("class") == "nested_missing":
+                cls = "nested_missing"
             key = (cl, cls)
             seen.setdefault(key, 0)
             if seen[key] >= self.max_shrunk:
                 continue
             seen[key] += 1
             case = runner.extract_case(save, int(kv["case"]), self.case_start)
-            shown = self.shrink(harness, driver, case, "SPECFAIL", "clause=" + cl)
+            sub = "clause=" + cl + (" class=nested_missing" if cls == "nested_missing" else "")
+            shown = self.shrink(harness, driver, case, "SPECFAIL", sub)
             what = f"spec:{self.prop}:{cl}" + (":" + cls if cls else "")
-            res.spec_failures.append(runner.Finding("spec", what, shown, {"driver": l}, {"clause": cl, "pre_class": cls}))
+            res.spec_failures.append(runner.Finding("spec", what, shown, {"driver": l},
+                                                    {"clause": cl, "pre_class": cls, "post": self._driver_lines(shown)}))
         n = 0
         seen_m = set()
         for l in lines:
@@ -158,16 +178,24 @@ class C09(StdCheck):
                 res.corr_failures.append(runner.Finding("corr", kv.get("op", "?") + ":" + kv.get("kind", "observation"), shown, {"driver": l}))
 
     def matches_known(self, entry, finding):
-        if entry.get("classifier") != "macro_in_shell_quotes" or finding.kind != "spec":
+        if finding.kind != "spec":
             return False
-        if finding.classifier_data.get("clause") != "string_cmd_verbatim" or finding.classifier_data.get("pre_class") != "macro_in_shell_quotes":
-            return False
-        # the minimised case as well: every string command line left in it quotes a macro, and nothing but that clause fails
-        xs = [x_template(l) for l in finding.case_lines if l.startswith("X ")]
-        if not xs or any(t is None or not macro_in_shell_quotes(t) for t in xs):
-            return False
-        fails = [l for l in finding.case_lines if l.startswith(("SPECFAIL", "MISMATCH"))]
-        return all("clause=string_cmd_verbatim" in l for l in fails)
+        cd = finding.classifier_data
+        post = cd.get("post", [])
+        if entry.get("classifier") == "macro_in_shell_quotes":
+            if cd.get("clause") != "string_cmd_verbatim" or cd.get("pre_class") != "macro_in_shell_quotes":
+                return False
+            # the minimised case as well: every string command line left in it quotes a macro, and nothing but that clause fails
+            xs = [x_template(l) for l in finding.case_lines if l.startswith("X ")]
+            if not xs or any(t is None or not macro_in_shell_quotes(t) for t in xs):
+                return False
+            return bool(post) and all(l.startswith("SPECFAIL") and "clause=string_cmd_verbatim" in l for l in post)
+        if entry.get("classifier") == "cached_nested_missing":
+            if cd.get("clause") != "cached_equals_direct" or cd.get("pre_class") != "nested_missing":
+                return False
+            # the minimised case: nothing fails but that clause in that class, and model and implementation agree on both passes
+            return bool(post) and all(l.startswith("SPECFAIL") and "clause=cached_equals_direct class=nested_missing" in l for l in post)
+        return False
 
 
 CHECK = C09()
